@@ -213,8 +213,7 @@ void run_round(Chooser& c, Topic& topic, int round) {
   bool prefix = c.chance(1, 2);
   R.pre = prefix ? c.range(120, 130) : 0;
   int npub = c.range(1, 3), ncons = c.range(1, 3);
-  bool reserve = c.chance(1, 8);
-  dsched::describe(" R%d{pre=%d%s;", round, R.pre, reserve ? ",reserve" : "");
+  dsched::describe(" R%d{pre=%d;", round, R.pre);
 
   auto new_ids = [&](int pub, int op, int n) {
     uint64_t first = W->items.size() + 1;
@@ -258,10 +257,8 @@ void run_round(Chooser& c, Topic& topic, int round) {
   int close_delay = c.range(0, 3);
   dsched::describe(" close+%d}", close_delay);
 
-  if (reserve) {
-    topic.reserve(R.total + 1);
-    dsched::label("reserve");
-  }
+  // (ConcurrentTransientTopic::reserve and the ConsumeRange / Consumer `operator bool` are declared in
+  //  transient_topic.h but defined nowhere in the tree: using them does not link, so they are not exercised)
   if (R.pre > 0) {
     // quiet single-threaded phase: the prefix brings the publication index next to the 128-slot block edge
     dsched::quiet_begin();
